@@ -2,3 +2,4 @@ import FtModel.Basic
 import FtModel.Coiter
 import FtModel.Eq
 import FtModel.Point
+import FtModel.Populate
